@@ -592,7 +592,8 @@ Lemma feature_facts : forall m, in_feature_set m = true ->
   m_preform m = [] /\
   (exists F, m_from m = Some F /\ good_value F = true) /\
   (exists tos ccs, m_addr m = (hdr_to, tos) :: match ccs with [] => [] | _ => [(hdr_cc, ccs)] end /\
-                   tos <> [] /\ forallb good_value tos = true /\ forallb good_value ccs = true) /\
+                   tos <> [] /\ good_value (join (bs ", ") tos) = true /\
+                   (ccs <> [] -> good_value (join (bs ", ") ccs) = true)) /\
   Writer.m_parts m <> [] /\ forallb part_ok (Writer.m_parts m) = true /\
   forallb file_ok (m_embeds m) = true /\ forallb file_ok (m_attach m) = true /\
   m_bmixed m = [] /\ m_brelated m = [] /\ m_balt m = [].
@@ -613,9 +614,9 @@ Proof.
   split.
   { destruct (m_addr m) as [|[k1 tos] [|[k2 ccs] [|]]]; try discriminate.
     - repeat (apply andb_true_iff in Ha; destruct Ha as [Ha ?]). apply beq in Ha. subst k1.
-      exists tos, []. repeat split; auto. intros ->. discriminate.
+      exists tos, []. split; [reflexivity|]. split; [intros ->; discriminate|]. split; [assumption|congruence].
     - repeat (apply andb_true_iff in Ha; destruct Ha as [Ha ?]). apply beq in Ha. apply beq in H1. subst k1 k2.
-      exists tos, ccs. destruct ccs; [discriminate|]. repeat split; auto. intros ->. discriminate. }
+      exists tos, ccs. destruct ccs; [discriminate|]. split; [reflexivity|]. split; [intros ->; discriminate|]. split; auto. }
   split; [intros E; rewrite E in Hpn; discriminate|].
   repeat split; auto;
     match goal with H : is_empty ?x = true |- ?x = [] => destruct x; [reflexivity|discriminate] end.
